@@ -3,6 +3,7 @@ package verifh
 import (
 	rt "github.com/protobom/protobom/internal/verifrt"
 	"github.com/protobom/protobom/pkg/sbom"
+	"google.golang.org/protobuf/types/known/timestamppb"
 )
 
 // C12: copies and combined results share no mutable state with their sources. Independence is decided by
@@ -31,6 +32,10 @@ func indep(a, b any, site string) {
 
 func H_C12_CopyNode() {
 	x, y := c12node("x"), c12node("y")
+	// dates anywhere in the representable range, the epoch and earlier included
+	x.ReleaseDate = &timestamppb.Timestamp{Seconds: rt.NondetInt64("sec", -2000000000, 4000000000), Nanos: rt.NondetInt32("nanos", 0, 999999999)}
+	x.BuildDate = &timestamppb.Timestamp{Seconds: rt.NondetInt64("sec", -2000000000, 4000000000)}
+	x.ValidUntilDate = &timestamppb.Timestamp{Seconds: rt.NondetInt64("sec", -2000000000, 4000000000)}
 	c := x.Copy()
 	rt.Assert(x.Equal(c), "C12.Node.equal")
 	for f := 0; f < numNodeFields; f++ {
@@ -143,4 +148,50 @@ func H_C12_History() {
 	rt.Havoc(b)
 	rt.Assert(rt.SameAsSnapshot(s1, r1), "C12.history.union.afteredit")
 	rt.Assert(rt.SameAsSnapshot(s2, i1), "C12.history.intersect.afteredit")
+}
+
+// H_C12_Shapes: operand shapes the general harness does not have: a side without root elements (the result must not
+// adopt the other side's list), and one relationship spelled as two edges on the argument's side (as the SPDX reader
+// produces them). Independence in both directions, and a copy made earlier is not altered by the later call that
+// takes it as an operand.
+func H_C12_Shapes() {
+	mk := func(p string) *sbom.NodeList {
+		return &sbom.NodeList{Nodes: []*sbom.Node{sentinelNode("n0", p), sentinelNode(p+"1", p)},
+			Edges:        []*sbom.Edge{{From: "n0", Type: sbom.Edge_contains, To: withSpare([]string{p + "1"}, p+"to")}},
+			RootElements: withSpare([]string{"n0"}, p+"root")}
+	}
+	a, b := mk("a"), mk("b")
+	switch rt.NondetChoice("shape", 4) {
+	case 1:
+		a.RootElements = nil
+	case 2:
+		b.RootElements = nil
+	case 3:
+		a.Edges = nil
+		b.Edges = append(b.Edges, &sbom.Edge{From: "n0", Type: sbom.Edge_contains, To: withSpare([]string{"n0"}, "bto2")})
+	}
+	bc := b.Copy() // an earlier result
+	sbc := rt.Snapshot(bc)
+	var r *sbom.NodeList
+	site := "C12.shapes.union"
+	switch rt.NondetChoice("op", 2) { // the in-place Add makes no independence promise (C12 names copies, unions, intersections)
+	case 0:
+		r = a.Union(bc)
+	case 1:
+		r = a.Intersect(bc)
+		site = "C12.shapes.intersect"
+	}
+	rt.Assert(rt.SameAsSnapshot(sbc, bc), site+".earlier-copy-unaltered")
+	switch rt.NondetChoice("direction", 2) {
+	case 0:
+		sa, sb := rt.Snapshot(a), rt.Snapshot(bc)
+		rt.Havoc(r)
+		rt.Assert(rt.SameAsSnapshot(sa, a), site+".result-to-first")
+		rt.Assert(rt.SameAsSnapshot(sb, bc), site+".result-to-second")
+	case 1:
+		sr := rt.Snapshot(r)
+		rt.Havoc(bc)
+		rt.Havoc(a)
+		rt.Assert(rt.SameAsSnapshot(sr, r), site+".operands-to-result")
+	}
 }
